@@ -30,7 +30,8 @@ CONSTANTS
     Times,       \* alphabet of time() values
     MaxTests,    \* bound on startTest calls in the run
     MaxTags,     \* bound on tags() calls in the run
-    MaxTime      \* bound on time() calls in the run
+    MaxTime,     \* bound on time() calls in the run
+    MaxRuns      \* bound on startTestRun/stopTestRun brackets on ONE decorator chain (bounds above are per history)
 
 None   == "none"
 NoTags == {"~"}      \* test_tags=None (TLC cannot compare a set with a string)
@@ -42,6 +43,8 @@ Kinds == {"success", "failure", "error", "skip", "xfail", "uxsuccess"}
 \*   "exc"     add*(test, err=exc_info)           (failure, error, xfail)
 \*   "details" add*(test, details={...})          (all six)
 \*   "reason"  addSkip(test, reason=r)            (skip)
+\*   "both"    addSkip(test, reason=r, details={...}) with no 'reason' entry in the details  (skip; the sender
+\*             does not reject it: the details' files, then the reason file)
 \* a detail is [name, ct, chunks]; chunks is the sequence iter_bytes() yields
 
 \* what TracebackContent(err, test) is for the one exc_info the driver uses (3 chunks, see harness/c09.py)
@@ -88,7 +91,7 @@ ChunkEvents(cs) ==
 
 \* details dict the loop iterates (real.py:1676-1680)
 EffDetails(c) == IF c.form = "exc" THEN <<TbDetail>>
-                 ELSE IF c.form = "details" THEN c.details ELSE <<>>
+                 ELSE IF c.form \in {"details", "both"} THEN c.details ELSE <<>>
 
 FileEvs(i, d, ts) ==
     LET ce == ChunkEvents(d.chunks)
@@ -98,7 +101,7 @@ Convert(i, c) ==
     LET ts == Now
         ds == EffDetails(c)
         files == FlattenSeq([k \in 1..Len(ds) |-> FileEvs(i, ds[k], ts)])
-        rsn == IF c.form = "reason"
+        rsn == IF c.form \in {"reason", "both"}            \* `if reason is not None`, whatever the details were
                THEN <<Ev(i, None, NoTags, "reason", c.reason, TRUE, "text", ts)>> ELSE <<>>
     IN files \o rsn \o <<Ev(i, StatusOf(c.kind), Current, None, None, FALSE, None, ts)>>
 
@@ -177,6 +180,7 @@ CallDetails(e) ==
     CASE e.form = "exc" -> <<TbDetail>>
       [] e.form = "details" -> e.details
       [] e.form = "reason" -> <<[name |-> "reason", ct |-> "text", chunks |-> <<e.reason>>]>>
+      [] e.form = "both" -> e.details \o <<[name |-> "reason", ct |-> "text", chunks |-> <<e.reason>>]>>
       [] OTHER -> <<>>
 NonEmptyFiles(ds) ==
     {[name |-> ds[k].name, ct |-> ds[k].ct, bytes |-> Join(ds[k].chunks)] :
@@ -232,8 +236,11 @@ Init ==
 
 Quiet == pending = <<>>      \* calls are synchronous: the previous call's events have been consumed
 
+\* startTestRun/stopTestRun brackets so far on this chain
+Runs == Cardinality({i \in DOMAIN inp : inp[i].op = "startTestRun"})
+
 StartTestRun ==
-    /\ phase = "off"
+    /\ phase \in {"off", "ended"} /\ Runs < MaxRuns      \* the same decorator chain may be used for another run
     /\ phase' = "idle"
     /\ ctx' = <<{}>> /\ now' = None                      \* E2S.startTestRun
     /\ inprog' = <<>>                                     \* hook.startTestRun
@@ -363,7 +370,7 @@ CtxMeaning == (phase \in {"idle", "intest", "done"} /\ Quiet) => Current = TagsA
 
 -----------------------------------------------------------------------------
 (* Export of behaviours for replay into the real converters                 *)
-Terminal == phase = "ended"
+Terminal == phase = "ended" /\ Runs = MaxRuns
 
 \* per test, what the reproduced bracket must say (details with their chunk lists; the driver joins and drops empty ones)
 ExportTest(L, o) ==
